@@ -11,7 +11,8 @@ MANIFEST = {
              "convention), and a segment encoded with the compressor decodes to the same payload - all under the contract of the third-party block "
              "functions stated in the model. NOT proved: that pierrec/lz4 and golang/snappy meet that contract; this is validated on every run by "
              "round trips over compressibility classes and sizes 0..131071 and 1 MiB (several MiB in the thorough tier), including maximum-size "
-             "(131071, 131070 bytes) compressible payloads through the compressing segment codec, with the measured ratio "
+             "(131071, 131070 bytes) compressible payloads and payloads whose compressed size equals the uncompressed size through the compressing "
+             "segment codec, and every entry point driven through several io.Reader / io.Writer kinds, with the measured ratio "
              "distribution in the evidence, and by direct tests of each contract clause (bound adequate, expansion <= 255, exact result into any "
              "large-enough destination, error into a too-small one)."),
     "technique": "Rocq proof over hand model with Section-variable oracles + contract validation and model/code correspondence on the implementation",
@@ -54,6 +55,9 @@ def check(run):
     nontrivial = set()
     evaluations = 0
     seg_sizes = collections.Counter()
+    rdr_kinds = collections.Counter()
+    rdr_entry = set()
+    ratio_search = None
     max_compressed_segments = []
     for r in recs:
         k = r["kind"]
@@ -112,6 +116,30 @@ def check(run):
             if k == "seg" and r.get("enc_ok") and r["desc"]["len"] >= 131070 and r.get("cmp_len", 1 << 30) <= r["desc"]["len"]:
                 max_compressed_segments.append({"payload": r["desc"], "self_contained": r["sc"], "compressed_len": r["cmp_len"], "decode": r["dec"]["class"],
                                                 "payload_back": r["dec"].get("payload_eq")})
+        elif k == "rdr":
+            # one entry point pair driven through one source reader kind and one destination writer kind
+            evaluations += 1
+            rdr_kinds[(r["src"], r["dst"])] += 1
+            rdr_entry.add((r["algo"], r["compress"]))
+            rdr_entry.add((r["algo"], r["decompress"]))
+            if r["ok"]:
+                nontrivial.add(("rdr", r["algo"], r["compress"], r["src"], r["dst"], r["class"], r["len"]))
+            else:
+                why = []
+                if not r.get("compress_same"):
+                    why.append("%s gives %s (%d bytes) where the *bytes.Buffer source gives %s (%d bytes)" % (
+                        r["compress"], "output" if r["compress_ok"] else "an error", r["out_len"], "output" if r["ref_compress_ok"] else "an error", r["ref_len"]))
+                if r.get("decompress_of_reference_ok") is False:
+                    why.append("%s of the reference compressed bytes does not give the input back" % r["decompress"])
+                if r.get("roundtrip_ok") is False:
+                    why.append("%s then %s through this reader kind gives %d bytes instead of the %d-byte input" % (r["compress"], r["decompress"], r.get("roundtrip_len", 0), r["len"]))
+                findings.append({"kind": "result-depends-on-reader-kind", "algorithm": r["algo"], "entry_points": [r["compress"], r["decompress"]], "source_kind": r["src"],
+                                 "destination_kind": r["dst"], "content": r["class"], "len": r["len"], "seed": r["seed"], "input_hex": r.get("input_hex"),
+                                 "output_hex": r.get("out_hex") or r.get("out_head_hex"), "reference_output_hex": r.get("ref_hex") or r.get("ref_head_hex"), "reasons": why,
+                                 "what": "%s %s/%s with source %s and destination %s on class %s, %d bytes: %s" % (
+                                     r["algo"], r["compress"], r["decompress"], r["src"], r["dst"], r["class"], r["len"], "; ".join(why))})
+        elif k == "ratio_search":
+            ratio_search = r
         elif k == "frame":
             evaluations += 1
             nontrivial.add(("frame", r["algo"], r["version"], r["query_len"]))
@@ -126,6 +154,18 @@ def check(run):
 
     if recs and not any(m["payload"]["len"] == 131071 for m in max_compressed_segments):
         broken.append("harness c08 ran no compressed segment with a payload of the maximum size 131071")
+
+    if recs:
+        want = {("lz4", "Compress"), ("lz4", "Decompress"), ("lz4", "CompressWithLength"), ("lz4", "DecompressWithLength"),
+                ("snappy", "CompressWithLength"), ("snappy", "DecompressWithLength")}
+        if not want <= rdr_entry:
+            broken.append("harness c08 did not drive every entry point through the reader/writer kinds: missing %s" % sorted(want - rdr_entry))
+        if len({k[0] for k in rdr_kinds}) < 6 or len({k[1] for k in rdr_kinds}) < 2:
+            broken.append("harness c08 used fewer than 6 source reader kinds / 2 destination writer kinds: %s" % dict(rdr_kinds))
+        if not ratio_search or not ratio_search.get("equal"):
+            broken.append("harness c08: the search found no payload whose LZ4 block is exactly as long as the payload: %s" % ratio_search)
+        elif not any(r["kind"] == "seg" and r.get("enc_ok") and r.get("cmp_len") == r["desc"]["len"] > 0 for r in recs):
+            broken.append("harness c08 ran no segment whose compressed length equals its uncompressed length")
 
     # ---- (b) correspondence of the wrapper model and, for the boundary-size segments, of the segment model with the
     #          library's compressed bytes as oracle answer (same comparison as C06: emitted bytes, header fields, decoded
@@ -176,6 +216,11 @@ def check(run):
     run.coverage["rule"] = ("implementation: Compress/Decompress, CompressWithLength/DecompressWithLength of lz4.Compressor{} and snappy.Compressor{} on classes "
                             "zero / repeated byte / ramp / periodic / pseudo-random / half-random / text-like / mixed blocks / row-like x sizes 0..131072, 200000, 262144, "
                             "1 MiB (thorough: up to 8 MiB and 440 random sizes); each clause of lz4_block_contract tested directly on the library per input; "
+                            "every entry point (lz4 Compress/Decompress/CompressWithLength/DecompressWithLength, snappy CompressWithLength/DecompressWithLength) driven "
+                            "through 10 source reader kinds (*bytes.Buffer, *bytes.Reader, *strings.Reader, io.LimitReader, iotest.OneByteReader, a 7-byte chunking reader, "
+                            "io.MultiReader, io.SectionReader, bufio.Reader, iotest.DataErrReader) x 2 destination kinds (*bytes.Buffer, a plain io.Writer): same outcome and "
+                            "bytes as the *bytes.Buffer pair, decompression of the reference bytes, and the round trip per kind; segments whose LZ4 block is exactly as long "
+                            "as / one byte shorter / one byte longer than the payload (found by a search over run+distinct-tail payloads against the compiled library); "
                             "QUERY frames with and without compression; EncodeSegment/DecodeSegment with lz4.Compressor{} on compressible payloads of the boundary sizes "
                             "131071 (maximum) and 131070 (zero / repeated / periodic / half-random, also run through the segment model; row-like / mixed / text-like, "
                             "implementation only; both flags); non-trivial = a distinct (algorithm/format, class, size) whose round trip was observed; "
@@ -185,6 +230,8 @@ def check(run):
     run.coverage["input_distribution"] = dict(kinds)
     run.coverage["compression_ratio_distribution"] = {k: dict(v) for k, v in dist.items()}
     run.coverage["max_ratio_observed"] = max_ratio
+    run.coverage["reader_writer_kinds"] = {"%s -> %s" % k: v for k, v in sorted(rdr_kinds.items())}
+    run.coverage["compressed_size_vs_payload_size_search"] = ratio_search
     run.coverage["segment_payload_sizes_through_lz4_codec"] = {str(k): v for k, v in sorted(seg_sizes.items())}
     run.coverage["maximum_size_compressed_segments"] = max_compressed_segments[:12]
 
@@ -195,5 +242,6 @@ def check(run):
             broken.append("coqchk failed on props/C08: " + out[-300:])
 
     seglib.finish(run, "C08", findings, broken,
-                  "expand the class/size/seed with tools/harness/cmd/seg expandClass (descriptor payloads: expand) and run lz4.Compressor{}.Compress then Decompress; for findings that carry "
+                  "findings of kind result-depends-on-reader-kind: call the named entry point with the named source kind (tools/harness/cmd/seg mkSource) on input_hex; otherwise "
+                  "expand the class/size/seed with tools/harness/cmd/seg expandClass (descriptor payloads: expand; pattern hex: the payload is desc.hex) and run lz4.Compressor{}.Compress then Decompress; for findings that carry "
                   "'compressor' and 'self_contained': segment.NewCodecWithCompression(lz4.Compressor{}).EncodeSegment then DecodeSegment: ./build/harness-seg c08 quick")
